@@ -66,6 +66,13 @@ type Rec struct {
 	Tot      [4]uint64 `json:"tot"` // packetTotal, octetTotal, reversePacketTotal, reverseOctetTotal
 	Dlt      [4]uint64 `json:"dlt"` // the four delta counters, same order
 	TCPState string    `json:"tcp,omitempty"`
+	// Layout: the order in which the reporting node's template lists the elements (0 = default,
+	// 1 = reversed, 2 = rotated by 7, 3 = counters first): two exporters (or two versions of one)
+	// need not agree on it.
+	Layout int `json:"layout,omitempty"`
+	// Incomplete: the record lacks the tcpState element although the process is configured to
+	// aggregate it (a malformed record; the process reports an error for it on a held flow).
+	Incomplete bool `json:"incomplete,omitempty"`
 }
 
 // Element name tables (order: packet, octet, reversePacket, reverseOctet).
@@ -242,6 +249,37 @@ func RecordElements(f FlowDef, r Rec) []entities.InfoElementWithValue {
 	u8("ingressNetworkPolicyRuleAction", c.IngAct)
 	u8("egressNetworkPolicyRuleAction", c.EgrAct)
 	els = append(els, entities.NewSigned32InfoElement(IE("ingressNetworkPolicyRulePriority"), c.Priority))
+	if r.Incomplete {
+		for i, el := range els {
+			if el.GetName() == "tcpState" {
+				els = append(els[:i:i], els[i+1:]...)
+				break
+			}
+		}
+	}
+	switch r.Layout % 4 {
+	case 1:
+		for i, j := 0, len(els)-1; i < j; i, j = i+1, j-1 {
+			els[i], els[j] = els[j], els[i]
+		}
+	case 2:
+		k := 7 % len(els)
+		els = append(append([]entities.InfoElementWithValue(nil), els[k:]...), els[:k]...)
+	case 3:
+		var counters, rest []entities.InfoElementWithValue
+		for _, el := range els {
+			if el.GetDataType() == entities.Unsigned64 {
+				counters = append(counters, el)
+			} else {
+				rest = append(rest, el)
+			}
+		}
+		// octet counters before packet counters
+		for i, j := 0, len(counters)-1; i < j; i, j = i+1, j-1 {
+			counters[i], counters[j] = counters[j], counters[i]
+		}
+		els = append(counters, rest...)
+	}
 	return els
 }
 
